@@ -25,6 +25,7 @@ type Ctx struct {
 	src    map[string][]byte
 	repo   string
 	warn   []string
+	tags   []*TagInfo
 }
 
 func (c *Ctx) warnf(f string, a ...any) { c.warn = append(c.warn, fmt.Sprintf(f, a...)) }
